@@ -182,17 +182,10 @@ fn calculate_key_id(
         false,
         None,
     )?;
-    let public_key = Json::canonicalize(&Json::serialize(&public_key)?)?;
-    let public_key = String::from_utf8(public_key)
-        .map_err(|e| {
-            Error::Encoding(format!(
-                "public key from bytes to string failed: {}",
-                e,
-            ))
-        })?
-        .replace("\\n", "\n");
+    let public_key =
+        Json::canonicalize_for_signing(&Json::serialize(&public_key)?)?;
     let mut context = digest::Context::new(&SHA256);
-    context.update(public_key.as_bytes());
+    context.update(&public_key);
 
     let key_id = HEXLOWER.encode(context.finish().as_ref());
 
